@@ -47,8 +47,10 @@ _counter = [0]
 
 
 def write_file(ctx, lines, tag):
+    # one file name per role, rewritten for every case: a path names what the file holds NOW (a reader that remembers what an
+    # earlier file of that name held gives the previous case's answer and is reported)
     _counter[0] += 1
-    p = os.path.join(ctx.tmpdir(), f'{tag}_{_counter[0]}.pdb')
+    p = os.path.join(ctx.tmpdir(), f'{tag}.pdb')
     with open(p, 'w') as f:
         f.write('\n'.join(lines) + '\n')
     return p
@@ -98,7 +100,9 @@ def run_routines(ctx, dec_lines, ref_lines, cutoff, check, enforce, izone=None, 
         if arg is None:
             return None, None
         _counter[0] += 1
-        fn = os.path.join(d, f'z_{_counter[0]}.{kind}')
+        fn = os.path.join(d, f'z.{kind}')          # same name from case to case (see write_file); absent before the library writes it
+        if os.path.exists(fn):
+            os.remove(fn)
         if arg == 'write':
             return fn, None
         if arg == 'read':
